@@ -237,7 +237,7 @@ Section Facts.
   Lemma assign_inplace_meta v ps value v' e :
     assign_inplace v ps value = (v', e) -> vdtype v' = vdtype v /\ vshape v' = vshape v.
   Proof.
-    unfold Container.assign_inplace. intros H.
+    unfold Container.assign_inplace, Container.commit. intros H.
     repeat dmh H; inversion H; subst; simpl; auto.
   Qed.
 
@@ -264,35 +264,12 @@ Section Facts.
     destruct cs as [|c cs]; [reflexivity|]. apply IH.
   Qed.
 
-  (* a raising in-place assignment has changed nothing unless an element cast raised that class *)
+  (* a raising in-place assignment has changed nothing (fix 5dde979: the copy is committed only on success) *)
   Lemma assign_inplace_err v ps value v' e :
-    assign_inplace v ps value = (v', Some e) -> v' = v \/ CastFail e.
+    assign_inplace v ps value = (v', Some e) -> v' = v.
   Proof.
-    unfold Container.assign_inplace. intros H.
-    assert (SEQ : forall sh cells,
-      (if (if list_eq_dec Nat.eq_dec sh [length ps] then true else false)
-       then let '(d, e0) := write_cells (pycast (vdtype v)) ps cells (vdata v) in (with_data v d, e0)
-       else if negb (Nat.eqb (length sh) 1) then (v, Some ValueError)
-       else match cast_all (pycast (vdtype v)) cells with
-            | Raise e0 => (v, Some e0)
-            | Ret cells' => match bcast_seq (length ps) sh cells' with
-                            | None => (v, Some ValueError)
-                            | Some cs => (with_data v (fst (write_cells (fun x => Ret x) ps cs (vdata v))), None)
-                            end
-            end) = (v', Some e) -> v' = v \/ CastFail e).
-    { intros sh cells H0. destruct (list_eq_dec Nat.eq_dec sh [length ps]) as [Esh|Nsh].
-      - destruct (write_cells (pycast (vdtype v)) ps cells (vdata v)) as [dx ex] eqn:W.
-        inversion H0; subst. right. apply write_cells_err in W as [c W]. exists (vdtype v), c. left. exact W.
-      - destruct (negb (Nat.eqb (length sh) 1)); [inversion H0; subst; left; reflexivity|].
-        destruct (cast_all (pycast (vdtype v)) cells) as [cells'|ex]; [|inversion H0; subst; left; reflexivity].
-        destruct (bcast_seq (length ps) sh cells'); inversion H0; subst; left; reflexivity. }
-    destruct value as [c|k items|a b c|sh dt cells]; cbv beta iota in H.
-    - destruct (pycast (vdtype v) c); inversion H; subst; left; reflexivity.
-    - destruct (as_array (OSeq k items)) as [[sh cells]|ex]; [apply (SEQ sh cells); exact H|inversion H; subst; left; reflexivity].
-    - destruct (as_array (ORange a b c)) as [[sh cells]|ex]; [apply (SEQ sh cells); exact H|inversion H; subst; left; reflexivity].
-    - destruct (bcast_arr (length ps) sh cells) as [cs|]; [|inversion H; subst; left; reflexivity].
-      destruct (write_cells (arrcast dt (vdtype v)) ps cs (vdata v)) as [dx ex] eqn:W.
-      inversion H; subst. right. apply write_cells_err in W as [c W]. exists (vdtype v), c. right. exists dt. exact W.
+    unfold Container.assign_inplace, Container.commit. intros H.
+    repeat dmh H; inversion H; subst; auto.
   Qed.
 
   Lemma assign_item_err v p value v' e :
@@ -587,18 +564,18 @@ Section Facts.
 
   (* ================================================================ failed assignments *)
   Lemma setattr_var_err name value s s' e :
-    setattr_var name value s = (s', Raise e) -> s' = s \/ CastFail e.
+    setattr_var name value s = (s', Raise e) -> s' = s.
   Proof.
     unfold Container.setattr_var. intros H.
-    destruct (assoc name (vars s)) as [v|] eqn:A; [|inversion H; left; reflexivity].
+    destruct (assoc name (vars s)) as [v|] eqn:A; [|inversion H; reflexivity].
     destruct (is_sequence value).
-    - destruct (as_array value) as [[sh cells]|e0]; [|inversion H; left; reflexivity].
-      destruct (cast_all (pycast (vdtype v)) cells) as [cells'|e0]; [|inversion H; left; reflexivity].
-      destruct (negb (Nat.eqb (length sh) 1) || negb (Nat.eqb (hd 0 sh) (n_of s)))%bool; inversion H; left; reflexivity.
-    - destruct (vshape v) as [|m [|m' r]]; try (inversion H; left; reflexivity).
+    - destruct (as_array value) as [[sh cells]|e0]; [|inversion H; reflexivity].
+      destruct (cast_all (pycast (vdtype v)) cells) as [cells'|e0]; [|inversion H; reflexivity].
+      destruct (negb (Nat.eqb (length sh) 1) || negb (Nat.eqb (hd 0 sh) (n_of s)))%bool; inversion H; reflexivity.
+    - destruct (vshape v) as [|m [|m' r]]; try (inversion H; reflexivity).
       destruct (assign_inplace v (seq 0 m) value) as [v' eo] eqn:AI.
       destruct eo as [ex|]; inversion H; subst.
-      apply assign_inplace_err in AI as [->|C]; [left|right; exact C].
+      apply assign_inplace_err in AI. subst v'.
       rewrite (assoc_set_same _ _ _ A). apply set_vars_same.
   Qed.
 
@@ -606,7 +583,7 @@ Section Facts.
     mem name (index s) = true -> setattr name value hint s = setattr_var name value s.
   Proof.
     intros M. unfold Container.setattr. rewrite M.
-    destruct (negb (String.eqb name "strict")), (strict s), (reg_mem name (registry s)); reflexivity.
+    destruct (negb (is_property (kind s) name)), (strict s), (reg_mem name (registry s)); reflexivity.
   Qed.
 
   Lemma obj_setattr_err name value s s' e :
@@ -633,38 +610,37 @@ Section Facts.
   Qed.
 
   Lemma setattr_err name value hint s s' e :
-    name <> "values" -> setattr name value hint s = (s', Raise e) -> s' = s \/ CastFail e.
+    name <> "values" -> setattr name value hint s = (s', Raise e) -> s' = s.
   Proof.
     intros NV. unfold Container.setattr. intros H.
     match type of H with context [if ?c then _ else _] => destruct c end.
-    - destruct (alternatives hint (row_names s)) as [|a [|b r]]; inversion H; left; reflexivity.
+    - destruct (alternatives hint (row_names s)) as [|a [|b r]]; inversion H; reflexivity.
     - destruct (negb (mem name (index s))).
-      + destruct (reg_mem name (registry s)); left;
-          [eapply obj_setattr_err; eassumption | eapply add_attribute_err; eassumption].
+      + destruct (reg_mem name (registry s)); [eapply obj_setattr_err; eassumption | eapply add_attribute_err; eassumption].
       + eapply setattr_var_err; eassumption.
   Qed.
 
   Lemma setitem_err k value s s' e :
-    setitem k value s = (s', Raise e) -> s' = s \/ CastFail e.
+    setitem k value s = (s', Raise e) -> s' = s.
   Proof.
-    unfold Container.setitem. intros H. destruct k as [name|name l|name a b st| |]; try (inversion H; left; reflexivity).
-    - destruct (negb (mem name (index s))) eqn:M; [inversion H; left; reflexivity|].
+    unfold Container.setitem. intros H. destruct k as [name|name l|name a b st| |]; try (inversion H; reflexivity).
+    - destruct (negb (mem name (index s))) eqn:M; [inversion H; reflexivity|].
       apply negb_false_iff in M. rewrite (setattr_on_var _ _ _ _ M) in H. eapply setattr_var_err; eassumption.
-    - destruct (negb (mem name (index s))); [inversion H; left; reflexivity|].
-      destruct (locate (span s) l) as [p|e0]; [|inversion H; left; reflexivity].
-      destruct (assoc name (vars s)) as [v|] eqn:A; [|inversion H; left; reflexivity].
+    - destruct (negb (mem name (index s))); [inversion H; reflexivity|].
+      destruct (locate (span s) l) as [p|e0]; [|inversion H; reflexivity].
+      destruct (assoc name (vars s)) as [v|] eqn:A; [|inversion H; reflexivity].
       destruct (assign_item v p value) as [v' eo] eqn:AI.
       destruct eo as [ex|]; inversion H; subst.
-      apply assign_item_err in AI. subst v'. left.
+      apply assign_item_err in AI. subst v'.
       rewrite (assoc_set_same _ _ _ A). apply set_vars_same.
-    - destruct (negb (mem name (index s))); [inversion H; left; reflexivity|].
-      destruct (resolve_slice (span s) a b st) as [[[sl el] stp]|e0]; [|inversion H; left; reflexivity].
-      destruct (assoc name (vars s)) as [v|] eqn:A; [|inversion H; left; reflexivity].
-      destruct (vshape v) as [|m [|m' r]]; try (inversion H; left; reflexivity).
-      destruct (slice_positions m sl el stp) as [ps|]; [|inversion H; left; reflexivity].
+    - destruct (negb (mem name (index s))); [inversion H; reflexivity|].
+      destruct (resolve_slice (span s) a b st) as [[[sl el] stp]|e0]; [|inversion H; reflexivity].
+      destruct (assoc name (vars s)) as [v|] eqn:A; [|inversion H; reflexivity].
+      destruct (vshape v) as [|m [|m' r]]; try (inversion H; reflexivity).
+      destruct (slice_positions m sl el stp) as [ps|]; [|inversion H; reflexivity].
       destruct (assign_inplace v ps value) as [v' eo] eqn:AI.
       destruct eo as [ex|]; inversion H; subst.
-      apply assign_inplace_err in AI as [->|C]; [left|right; exact C].
+      apply assign_inplace_err in AI. subst v'.
       rewrite (assoc_set_same _ _ _ A). apply set_vars_same.
   Qed.
 
@@ -686,107 +662,22 @@ Section Facts.
     | Query _ => True
     end.
 
-  (* A raising single-variable operation leaves the WHOLE state unchanged, unless the exception is one that an
-     element cast of NumPy raised part-way through an in-place copy (then the leading cells are already written:
-     see partial_write_refuted in ContainerExamples.v; shape and dtype are intact by step_preserves_inv/dtype_kept). *)
+  (* A RAISING SINGLE-VARIABLE OPERATION LEAVES THE WHOLE STATE UNCHANGED - whatever the reason it cannot fit: wrong length or shape,
+     nesting, step 0, a value that cannot be cast (also part-way through an in-place copy: fix 5dde979 assigns into a copy and
+     commits it only on success), an unknown, duplicate or reserved name, strict=True. *)
   Theorem failed_single_assignment_no_change o s s' e :
-    single o -> step o s = (s', Raise e) -> s' = s \/ CastFail e.
+    single o -> step o s = (s', Raise e) -> s' = s.
   Proof.
     destruct o as [name v dt|name v hint|k v|kvs|name v|q]; simpl; intros S H.
-    - left. eapply add_variable_err; eassumption.
+    - eapply add_variable_err; eassumption.
     - eapply setattr_err; eassumption.
     - eapply setitem_err; eassumption.
     - contradiction.
-    - left. eapply add_attribute_err; eassumption.
+    - eapply add_attribute_err; eassumption.
     - inversion H.
   Qed.
 
-  (* ---- the precise version.  A raising single-variable operation changes something ONLY when it is an in-place copy
-     (label-slice assignment, or whole-series assignment of a non-sequence, i.e. an ndarray) whose element cast failed part-way;
-     and then only the cells of the addressed series differ: same dtype, same shape, every other series, the index, the
-     attributes untouched.  Everything else that "cannot fit" - wrong length into a slice, nesting too deep, step 0, ragged
-     nesting, a sequence into one cell, a whole-series LIST with a bad cell, unknown / duplicate names - leaves s' = s. *)
-  Definition only_data_of (name : string) (s s' : state) : Prop :=
-    exists v v', assoc name (vars s) = Some v /\ s' = set_vars s (assoc_set name v' (vars s)) /\
-                 vdtype v' = vdtype v /\ vshape v' = vshape v.
-
-  Lemma setattr_var_err2 name value s s' e :
-    setattr_var name value s = (s', Raise e) ->
-    s' = s \/ (is_sequence value = false /\ only_data_of name s s' /\ CastFail e).
-  Proof.
-    unfold Container.setattr_var. intros H.
-    destruct (assoc name (vars s)) as [v|] eqn:A; [|inversion H; left; reflexivity].
-    destruct (is_sequence value) eqn:SQ.
-    - destruct (as_array value) as [[sh cells]|e0]; [|inversion H; left; reflexivity].
-      destruct (cast_all (pycast (vdtype v)) cells) as [cells'|e0]; [|inversion H; left; reflexivity].
-      destruct (negb (Nat.eqb (length sh) 1) || negb (Nat.eqb (hd 0 sh) (n_of s)))%bool; inversion H; left; reflexivity.
-    - destruct (vshape v) as [|m [|m' r]]; try (inversion H; left; reflexivity).
-      destruct (assign_inplace v (seq 0 m) value) as [v' eo] eqn:AI.
-      destruct eo as [ex|]; inversion H; subst.
-      destruct (assign_inplace_meta _ _ _ _ _ AI) as [D S'].
-      apply assign_inplace_err in AI as [->|C].
-      + left. rewrite (assoc_set_same _ _ _ A). apply set_vars_same.
-      + right. split; [reflexivity|]. split; [|exact C]. exists v, v'. repeat split; assumption.
-  Qed.
-
-  Theorem sequence_assignment_atomic name value s s' e :
-    is_sequence value = true -> setattr_var name value s = (s', Raise e) -> s' = s.
-  Proof. intros SQ H. destruct (setattr_var_err2 _ _ _ _ _ H) as [E|[C _]]; [exact E|congruence]. Qed.
-
-  Theorem label_assignment_atomic name l value s s' e :
-    setitem (KLabel name l) value s = (s', Raise e) -> s' = s.
-  Proof.
-    unfold Container.setitem. intros H.
-    destruct (negb (mem name (index s))); [inversion H; reflexivity|].
-    destruct (locate (span s) l) as [p|e0]; [|inversion H; reflexivity].
-    destruct (assoc name (vars s)) as [v|] eqn:A; [|inversion H; reflexivity].
-    destruct (assign_item v p value) as [v' eo] eqn:AI.
-    destruct eo as [ex|]; inversion H; subst.
-    apply assign_item_err in AI. subst v'. rewrite (assoc_set_same _ _ _ A). apply set_vars_same.
-  Qed.
-
-  Theorem failed_single_assignment_precise o s s' e :
-    single o -> step o s = (s', Raise e) ->
-    s' = s \/
-    exists name, only_data_of name s s' /\ CastFail e /\
-      ((exists a b st v, o = SetItem (KSlice name a b st) v) \/
-       (exists v h, o = SetAttr name v h /\ is_sequence v = false) \/
-       (exists v, o = SetItem (KName name) v /\ is_sequence v = false)).
-  Proof.
-    destruct o as [name v dt|name v hint|k v|kvs|name v|q]; simpl; intros S H.
-    - left. eapply add_variable_err; eassumption.
-    - unfold Container.setattr in H.
-      match type of H with context [if ?c then _ else _] => destruct c end.
-      + destruct (alternatives hint (row_names s)) as [|a [|b r]]; inversion H; left; reflexivity.
-      + destruct (negb (mem name (index s))).
-        * left. destruct (reg_mem name (registry s)); [eapply obj_setattr_err; eassumption | eapply add_attribute_err; eassumption].
-        * destruct (setattr_var_err2 _ _ _ _ _ H) as [E|[SQ [OD C]]]; [left; exact E|].
-          right. exists name. split; [exact OD|]. split; [exact C|]. right. left. exists v, hint. split; [reflexivity|exact SQ].
-    - destruct k as [name|name l|name a b st| |]; try (inversion H; left; reflexivity).
-      + unfold Container.setitem in H. destruct (negb (mem name (index s))) eqn:M; [inversion H; left; reflexivity|].
-        apply negb_false_iff in M. rewrite (setattr_on_var _ _ _ _ M) in H.
-        destruct (setattr_var_err2 _ _ _ _ _ H) as [E|[SQ [OD C]]]; [left; exact E|].
-        right. exists name. split; [exact OD|]. split; [exact C|]. right. right. exists v. split; [reflexivity|exact SQ].
-      + left. eapply label_assignment_atomic. exact H.
-      + unfold Container.setitem in H.
-        destruct (negb (mem name (index s))); [inversion H; left; reflexivity|].
-        destruct (resolve_slice (span s) a b st) as [[[sl el] stp]|e0]; [|inversion H; left; reflexivity].
-        destruct (assoc name (vars s)) as [x|] eqn:A; [|inversion H; left; reflexivity].
-        destruct (vshape x) as [|m [|m' r]] eqn:SH; try (inversion H; left; reflexivity).
-        destruct (slice_positions m sl el stp) as [ps|]; [|inversion H; left; reflexivity].
-        destruct (assign_inplace x ps v) as [x' eo] eqn:AI.
-        destruct eo as [ex|]; inversion H; subst.
-        destruct (assign_inplace_meta _ _ _ _ _ AI) as [D S'].
-        apply assign_inplace_err in AI as [->|C].
-        * left. rewrite (assoc_set_same _ _ _ A). apply set_vars_same.
-        * right. exists name. split; [exists x, x'; repeat split; assumption|]. split; [exact C|].
-          left. exists a, b, st, v. reflexivity.
-    - contradiction.
-    - left. eapply add_attribute_err; eassumption.
-    - inversion H.
-  Qed.
-
-  (* add_variable, and every rejection that is not NumPy's, is atomic for ALL operations that address one name *)
+  (* add_variable is atomic *)
   Theorem add_variable_atomic name value dt s s' e :
     add_variable name value dt s = (s', Raise e) -> s' = s.
   Proof. apply add_variable_err. Qed.
@@ -903,13 +794,12 @@ Section Facts.
      AttributeError (NotImplementedError when the closest match is ambiguous) and changes NOTHING; the suggestion is
      the candidate(s) whose lower-case form difflib picked (the oracle `hint`) *)
   Theorem strict_blocks_new_attributes name value hint s :
-    strict s = true -> name <> "strict" ->
+    strict s = true -> is_property (kind s) name = false ->
     mem name (index s) = false -> reg_mem name (registry s) = false ->
     setattr name value hint s =
       (s, Raise (match alternatives hint (row_names s) with _ :: _ :: _ => NotImplementedError | _ => AttributeError end)).
   Proof.
-    intros S N M R. unfold Container.setattr. rewrite S, M, R.
-    apply String.eqb_neq in N. rewrite N. simpl.
+    intros S N M R. unfold Container.setattr. rewrite S, M, R, N. simpl.
     destruct (alternatives hint (row_names s)) as [|a [|b r]]; reflexivity.
   Qed.
 
@@ -971,21 +861,21 @@ Section Facts.
       (rewrite B; destruct (base_add_variable name value (match dt with None => dflt s | Some _ => dt end) s) as [s1 [u|e]]; reflexivity).
   Qed.
 
-  (* the values setter is reached (same outcome, same series) whenever the new-attribute guard does not fire, i.e. when
-     strict is off or 'values' has been registered by an earlier assignment; under strict=True with 'values' not yet
-     registered it is refused: strict_values_setter_blocked_refuted (ContainerExamples.v), a kept finding *)
+  (* the values setter is reached (same outcome, same series) whatever the strict flag (fix 49a73ab: properties of the class pass
+     the new-attribute guard) *)
+  Lemma is_property_values k : is_property k "values" = true.
+  Proof. destruct k; reflexivity. Qed.
+
   Theorem values_setter_reached value hint s :
     mem "values" (index s) = false ->
-    strict s = false \/ reg_mem "values" (registry s) = true ->
     snd (setattr "values" value hint s) = snd (values_setter value s) /\
     vars (fst (setattr "values" value hint s)) = vars (fst (values_setter value s)) /\
     index (fst (setattr "values" value hint s)) = index (fst (values_setter value s)).
   Proof.
-    intros M H. unfold Container.setattr. rewrite M.
+    intros M. unfold Container.setattr. rewrite M, is_property_values. cbn [negb andb].
     destruct (reg_mem "values" (registry s)) eqn:R.
-    - rewrite !andb_false_r. cbn [negb]. unfold Container.obj_setattr. rewrite bookkeeping_values. cbn [String.eqb Ascii.eqb Bool.eqb]. auto.
-    - destruct H as [H|H]; [|discriminate]. rewrite H. rewrite andb_false_r. cbn [negb andb].
-      unfold Container.add_attribute. rewrite M, R.
+    - unfold Container.obj_setattr. rewrite bookkeeping_values. cbn [String.eqb Ascii.eqb Bool.eqb]. auto.
+    - unfold Container.add_attribute. rewrite M, R.
       unfold Container.obj_setattr. rewrite bookkeeping_values. cbn [String.eqb Ascii.eqb Bool.eqb].
       destruct (values_setter value s) as [s' [u|e]]; simpl; auto. destruct u. auto.
   Qed.
@@ -1318,6 +1208,9 @@ Section NoOther.
   Lemma truthy_no_other o : truthy o <> Raise OtherError.
   Proof. destruct o as [v|k items|a b c|sh dt cells]; simpl; try discriminate. destruct cells as [|c [|c2 r]]; discriminate. Qed.
 
+  Lemma commit_no_other v r : snd r <> Some OtherError -> snd (commit v r) <> Some OtherError.
+  Proof. unfold Container.commit. destruct (snd r) as [e|]; simpl; [intros H; exact H|discriminate]. Qed.
+
   Lemma assign_inplace_no_other v ps value : snd (assign_inplace v ps value) <> Some OtherError.
   Proof.
     unfold Container.assign_inplace.
@@ -1326,7 +1219,7 @@ Section NoOther.
            | Raise e => (v, Some e)
            | Ret (sh, cells) =>
                if (if list_eq_dec Nat.eq_dec sh [length ps] then true else false)
-               then let '(d, e) := write_cells (pycast (vdtype v)) ps cells (vdata v) in (with_data v d, e)
+               then commit v (write_cells (pycast (vdtype v)) ps cells (vdata v))
                else if negb (Nat.eqb (length sh) 1) then (v, Some ValueError)
                else match cast_all (pycast (vdtype v)) cells with
                     | Raise e => (v, Some e)
@@ -1338,8 +1231,7 @@ Section NoOther.
            end) <> Some OtherError).
     { intros r Hr. destruct r as [[sh cells]|e]; [|simpl; intros C; inversion C; subst; apply Hr; reflexivity].
       destruct (list_eq_dec Nat.eq_dec sh [length ps]) as [Esh|Nsh].
-      - pose proof (write_cells_no_other (pycast (vdtype v)) (HP (vdtype v)) ps cells (vdata v)) as W.
-        destruct (write_cells (pycast (vdtype v)) ps cells (vdata v)) as [d e]. exact W.
+      - apply commit_no_other. apply (write_cells_no_other (pycast (vdtype v)) (HP (vdtype v))).
       - destruct (negb (Nat.eqb (length sh) 1)); [simpl; discriminate|].
         pose proof (cast_all_no_other (pycast (vdtype v)) cells (HP (vdtype v))) as Cc.
         destruct (cast_all (pycast (vdtype v)) cells) as [cells'|e]; [|simpl; intros C; inversion C; subst; apply Cc; reflexivity].
@@ -1349,8 +1241,7 @@ Section NoOther.
     - apply SEQ. apply as_array_no_other.
     - apply SEQ. apply as_array_no_other.
     - destruct (bcast_arr (length ps) sh cells) as [cs|]; [|simpl; discriminate].
-      pose proof (write_cells_no_other (arrcast dt (vdtype v)) (HA dt (vdtype v)) ps cs (vdata v)) as W.
-      destruct (write_cells (arrcast dt (vdtype v)) ps cs (vdata v)) as [d e]. exact W.
+      apply commit_no_other. apply (write_cells_no_other (arrcast dt (vdtype v)) (HA dt (vdtype v))).
   Qed.
 
   Lemma assign_item_no_other v p value : snd (assign_item v p value) <> Some OtherError.
@@ -1704,6 +1595,9 @@ Section DataLength.
     - rewrite (assoc_set_neq _ _ _ _ Ne). apply D.
   Qed.
 
+  Lemma commit_length v r : length (fst r) = length (vdata v) -> length (vdata (fst (commit v r))) = length (vdata v).
+  Proof. unfold Container.commit. destruct (snd r); simpl; [reflexivity|intros H; exact H]. Qed.
+
   Lemma assign_inplace_length v ps value : length (vdata (fst (assign_inplace v ps value))) = length (vdata v).
   Proof.
     unfold Container.assign_inplace.
@@ -1711,21 +1605,18 @@ Section DataLength.
     - destruct (pycast (vdtype v) c); simpl; [apply write_cells_length|reflexivity].
     - destruct (as_array (OSeq k items)) as [[sh cells]|e]; [|reflexivity].
       destruct (list_eq_dec Nat.eq_dec sh [length ps]) as [E|N].
-      + pose proof (write_cells_length (pycast (vdtype v)) ps cells (vdata v)) as W.
-        destruct (write_cells (pycast (vdtype v)) ps cells (vdata v)) as [d eo]. exact W.
+      + apply commit_length. apply write_cells_length.
       + destruct (negb (Nat.eqb (length sh) 1)); [reflexivity|].
         destruct (cast_all (pycast (vdtype v)) cells) as [cells'|e]; [|reflexivity].
         destruct (bcast_seq (length ps) sh cells'); simpl; [apply write_cells_length|reflexivity].
     - destruct (as_array (ORange a b c)) as [[sh cells]|e]; [|reflexivity].
       destruct (list_eq_dec Nat.eq_dec sh [length ps]) as [E|N].
-      + pose proof (write_cells_length (pycast (vdtype v)) ps cells (vdata v)) as W.
-        destruct (write_cells (pycast (vdtype v)) ps cells (vdata v)) as [d eo]. exact W.
+      + apply commit_length. apply write_cells_length.
       + destruct (negb (Nat.eqb (length sh) 1)); [reflexivity|].
         destruct (cast_all (pycast (vdtype v)) cells) as [cells'|e]; [|reflexivity].
         destruct (bcast_seq (length ps) sh cells'); simpl; [apply write_cells_length|reflexivity].
     - destruct (bcast_arr (length ps) sh cells) as [cs|]; [|reflexivity].
-      pose proof (write_cells_length (arrcast dt (vdtype v)) ps cs (vdata v)) as W.
-      destruct (write_cells (arrcast dt (vdtype v)) ps cs (vdata v)) as [d eo]. exact W.
+      apply commit_length. apply write_cells_length.
   Qed.
 
   Lemma assign_item_length v p value : length (vdata (fst (assign_item v p value))) = length (vdata v).
@@ -2283,12 +2174,12 @@ Section StrictFrame.
         left. rewrite (assoc_set_neq _ _ _ _ N) in H. exact H.
   Qed.
 
-  (* WITH strict=True NO OPERATION OTHER THAN add_attribute (and the very first `obj.strict = ...`, which registers the property) can
-     create a non-variable attribute: the registry is what it was, and every attribute entry afterwards either was there or belongs
+  (* WITH strict=True NO OPERATION OTHER THAN add_attribute (and the first assignment to a PROPERTY of the class - strict, values -
+     which registers that name; fix 49a73ab) can create a non-variable attribute: the registry is what it was, and every attribute entry afterwards either was there or belongs
      to a name that was registered before *)
   Theorem strict_creates_nothing o s :
     strict s = true -> in_scope (kind s) o ->
-    (forall n v, o <> AddAttribute n v) -> (forall v h, o <> SetAttr "strict" v h) ->
+    (forall n v, o <> AddAttribute n v) -> (forall n v h, o = SetAttr n v h -> is_property (kind s) n = false) ->
     registry (fst (step o s)) = registry s /\
     (forall x, assoc x (adict (fst (step o s))) <> None -> assoc x (adict s) <> None \/ reg_mem x (registry s) = true).
   Proof.
@@ -2298,8 +2189,7 @@ Section StrictFrame.
     { intros s' (R & A & _). rewrite R, A. auto. }
     destruct o as [name v dt|name v hint|k v|kvs|name v|q]; simpl.
     - apply SA. apply add_variable_sa.
-    - simpl in SC. unfold Container.setattr. rewrite ST.
-      destruct (String.eqb name "strict") eqn:E; [apply String.eqb_eq in E; subst; exfalso; exact (NS v hint eq_refl)|].
+    - simpl in SC. unfold Container.setattr. rewrite ST, (NS name v hint eq_refl).
       cbn [negb andb].
       destruct (mem name (index s)) eqn:M; cbn [negb andb].
       + apply SA. apply setattr_var_sa.
